@@ -269,7 +269,7 @@ func (e *Engine) RunSched(sc *Script) []Ev {
 			if !gates.releaseOne(who) {
 				return
 			}
-		case "g:snd", "g:cls", "g:rcv", "g:rd", "g:wat", "g:hsv":
+		case "g:snd", "g:cls", "g:rcv", "g:rd", "g:wat", "g:hsv", "g:cpy":
 			if !gates.releaseOne(who[2:]) {
 				return
 			}
